@@ -299,6 +299,11 @@ func extractZip(zipFile, dest string) error {
 			return os.MkdirAll(path, 0700)
 		}
 
+		// zip archives need not contain entries for parent directories
+		if err := os.MkdirAll(filepath.Dir(path), 0700); err != nil {
+			return err
+		}
+
 		fs, err := file.Open()
 		if err != nil {
 			return err
